@@ -15,6 +15,7 @@ Notation wf := (wf H enc).
 Notation Exposed := (Exposed H enc).
 Notation closedR := (closedR H enc).
 Notation IsNode := (IsNode H enc).
+Notation NodePath := (NodePath H enc show_nat).
 Notation restore1 := (restore1 show_nat).
 Notation pass := (pass show_nat).
 Notation passes := (passes show_nat).
@@ -37,21 +38,22 @@ Lemma step_spec R d path :
   closedR R t -> ok_disc d -> R (d_digest d) = false ->
   (restore1 129 d path (view R t) = Ok (view R t, [], false) /\ ~ Exposed R (d_digest d) (d_key d) (d_val d) t) \/
   (exists p, restore1 129 d path (view R t) = Ok (view (Radd R (d_digest d)) t, [(p, d)], true) /\ closedR (Radd R (d_digest d)) t /\
-             Exposed R (d_digest d) (d_key d) (d_val d) t).
+             Exposed R (d_digest d) (d_key d) (d_val d) t /\
+             exists suffix, p = (path ++ suffix)%string /\ NodePath (d_digest d) t suffix).
 Proof.
   intros Hc Hok HR.
   destruct (occurs (d_digest d) (view R t)) eqn:Eo.
   - destruct Hok as [Hnode|Hfor].
     + destruct (visible_cases H enc R (d_digest d) t Hwf Hnd Eo (IsNode_hdigs H enc _ _ _ _ Hnode)) as [HRt|(k & v & Hex)]; [congruence|].
       destruct (IsNode_fun H enc _ _ _ _ _ _ Hndh (Exposed_IsNode H enc _ _ _ _ _ Hex) Hnode) as [-> ->].
-      right. destruct (restore1_exposed H enc show_nat t Hwf 129 R _ _ _ d Hnd Hndh Hc Hheight Hex eq_refl eq_refl eq_refl) as [suffix Hps].
-      exists (path ++ suffix)%string. split; [apply Hps|]. split; [eapply closedR_add; eauto|assumption].
+      right. destruct (restore1_exposed H enc show_nat t Hwf 129 R _ _ _ d Hnd Hndh Hc Hheight Hex eq_refl eq_refl eq_refl) as [suffix [Hnp Hps]].
+      exists (path ++ suffix)%string. split; [apply Hps|]. split; [eapply closedR_add; eauto|]. split; [assumption|]. eauto.
     + exfalso. apply Hfor. eapply occurs_view; eauto.
   - left. split.
     + apply restore1_no_occ; [apply sdwf_view; assumption|assumption|].
       pose proof (height_view H enc R t Hwf). lia.
     + intros Hex.
-      destruct (restore1_exposed H enc show_nat t Hwf 129 R _ _ _ d Hnd Hndh Hc Hheight Hex eq_refl eq_refl eq_refl) as [suffix Hps].
+      destruct (restore1_exposed H enc show_nat t Hwf 129 R _ _ _ d Hnd Hndh Hc Hheight Hex eq_refl eq_refl eq_refl) as [suffix [_ Hps]].
       specialize (Hps path). rewrite restore1_no_occ in Hps; [discriminate|apply sdwf_view; assumption|assumption|].
       pose proof (height_view H enc R t Hwf). lia.
 Qed.
@@ -61,7 +63,8 @@ Qed.
 Definition placed_ok (R R' : Rset) (todo : list disc) (pd : dpath) : Prop :=
   In (snd pd) todo /\ R' (d_digest (snd pd)) = true /\
   exists R1, (forall g, R g = true -> R1 g = true) /\ (forall g, R1 g = true -> R' g = true) /\
-             Exposed R1 (d_digest (snd pd)) (d_key (snd pd)) (d_val (snd pd)) t.
+             Exposed R1 (d_digest (snd pd)) (d_key (snd pd)) (d_val (snd pd)) t /\
+             NodePath (d_digest (snd pd)) t (fst pd).
 
 Definition pdig (pd : dpath) : string := d_digest (snd pd).
 
@@ -76,20 +79,21 @@ Lemma pass_spec : forall todo R ps,
     NoDup (map d_digest rem) /\
     (b = false -> R' = R /\ rem = todo /\ forall d, In d todo -> ~ Exposed R (d_digest d) (d_key d) (d_val d) t) /\
     (b = true -> List.length rem < List.length todo) /\
-    Forall (placed_ok R R' todo) placed /\ NoDup (map pdig placed).
+    Forall (placed_ok R R' todo) placed /\ NoDup (map pdig placed) /\
+    (forall g, R' g = true -> R g = true \/ In g (map pdig placed)).
 Proof.
   induction todo as [|d r IH]; intros R ps Hc Hall Hnd'.
   - exists R, [], [], false. cbn. rewrite app_nil_r. split; [reflexivity|]. split; [assumption|]. split; [intros g Hg; left; assumption|].
     split; [auto|]. split; [intros ? []|]. split; [intros ? []|]. split; [constructor|].
-    split; [intros _; repeat split; auto; intros ? []|]. split; [discriminate|]. split; constructor.
+    split; [intros _; repeat split; auto; intros ? []|]. split; [discriminate|]. split; [constructor|]. split; [constructor|auto].
   - cbn [map] in Hnd'. inversion Hnd' as [|? ? Hni Hnd'']; subst.
     destruct (Hall d (or_introl eq_refl)) as [Hok HRd].
     cbn [Model2.pass].
-    destruct (step_spec R d "" Hc Hok HRd) as [[Hr Hnex]|(p1 & Hr & Hc1 & Hex1)].
+    destruct (step_spec R d "" Hc Hok HRd) as [[Hr Hnex]|(p1 & Hr & Hc1 & Hex1 & sfx & Hp1 & Hnp1)].
     + (* not placed: stays pending, state unchanged *)
       rewrite Hr. cbn [bind]. rewrite app_nil_r.
       destruct (IH R ps Hc (fun d' Hd' => Hall d' (or_intror Hd')) Hnd'')
-        as (R' & placed & rem & b & Hp & Hc' & Hsub & Hmono & Hcov & Hrem & Hndr & Hb0 & Hb1 & Hpl & Hndp).
+        as (R' & placed & rem & b & Hp & Hc' & Hsub & Hmono & Hcov & Hrem & Hndr & Hb0 & Hb1 & Hpl & Hndp & Hgrow).
       rewrite Hp. cbn [bind]. exists R', placed, (d :: rem), b. cbn [orb]. split; [reflexivity|]. split; [assumption|].
       split; [intros g Hg; destruct (Hsub g Hg); [left|right; right]; assumption|].
       split; [assumption|].
@@ -106,7 +110,7 @@ Proof.
       { intros ->. destruct (Hb0 eq_refl) as (-> & -> & Hne). repeat split; auto. intros d' [<-|Hd']; auto. }
       split.
       { intros ->. specialize (Hb1 eq_refl). cbn. lia. }
-      split; [|assumption].
+      split; [|split; assumption].
       eapply Forall_impl; [|exact Hpl]. intros pd (Hin & HR' & R1 & H1 & H2 & Hex). split; [right; assumption|]. split; [assumption|].
       exists R1. auto.
     + (* placed *)
@@ -115,7 +119,7 @@ Proof.
       { intros d' Hd'. destruct (Hall d' (or_intror Hd')) as [Ho HR']. split; [assumption|].
         rewrite Radd_other; [assumption|]. intros Hq. apply Hni. rewrite <- Hq. apply in_map. assumption. }
       destruct (IH (Radd R (d_digest d)) (ps ++ [(p1, d)])%list Hc1 Hall1 Hnd'')
-        as (R' & placed & rem & b & Hp & Hc' & Hsub & Hmono & Hcov & Hrem & Hndr & Hb0 & Hb1 & Hpl & Hndp).
+        as (R' & placed & rem & b & Hp & Hc' & Hsub & Hmono & Hcov & Hrem & Hndr & Hb0 & Hb1 & Hpl & Hndp & Hgrow).
       rewrite Hp. cbn [bind]. exists R', ((p1, d) :: placed), rem, true. cbn [orb].
       split; [rewrite <- app_assoc; reflexivity|]. split; [assumption|].
       split.
@@ -134,12 +138,16 @@ Proof.
       split.
       { constructor.
         - split; [left; reflexivity|]. split; [apply Hmono; apply Radd_same|].
-          exists R. split; [auto|]. split; [intros g Hg; apply Hmono; apply Radd_mono; assumption|exact Hex1].
+          exists R. split; [auto|]. split; [intros g Hg; apply Hmono; apply Radd_mono; assumption|]. split; [exact Hex1|].
+          cbn [fst snd]. rewrite Hp1. exact Hnp1.
         - eapply Forall_impl; [|exact Hpl]. intros pd (Hin & HR' & R1 & H1 & H2 & Hex). split; [right; assumption|]. split; [assumption|].
           exists R1. split; [intros g Hg; apply H1; apply Radd_mono; assumption|]. split; assumption. }
+      split.
       { cbn [map]. constructor; [|assumption]. intros Hin. apply in_map_iff in Hin as [pd [Hq Hpd]].
         rewrite Forall_forall in Hpl. destruct (Hpl pd Hpd) as (Hinr & _). apply Hni. unfold pdig in Hq. cbn [snd] in Hq.
         rewrite <- Hq. apply in_map. assumption. }
+      { intros g Hg. destruct (Hgrow g Hg) as [Ha|Hin]; [|right; right; assumption].
+        unfold Radd in Ha. destruct (String.eqb_spec g (d_digest d)) as [->|]; [right; left; reflexivity|left; exact Ha]. }
 Qed.
 
 Variable L : list disc.
@@ -165,13 +173,16 @@ Lemma passes_spec : forall fuel pending R ps,
   (forall g, R g = true -> own g = true) -> (forall d, In d pending -> In d L) ->
   (forall d, In d L -> In d pending \/ R (d_digest d) = true) ->
   exists placed, passes fuel pending (view R t) ps = Ok (view own t, (ps ++ placed)%list) /\
-                 Forall (placed_ok R own pending) placed /\ NoDup (map pdig placed).
+                 Forall (placed_ok R own pending) placed /\ NoDup (map pdig placed) /\
+                 exists Rf, (forall g, Rf g = true -> R g = true \/ In g (map pdig placed)) /\
+                            (forall g k v, Exposed Rf g k v t -> own g = false) /\
+                            (forall g, Rf g = true -> own g = true).
 Proof.
   induction fuel as [|fuel IH]; intros pending R ps Hfuel Hc HRp Hndp Hsubo HpL Hcover; [lia|].
   cbn [Model2.passes].
   assert (Hall : forall d, In d pending -> ok_disc d /\ R (d_digest d) = false).
   { intros d Hd. split; [|auto]. rewrite Forall_forall in HLok. auto. }
-  destruct (pass_spec pending R ps Hc Hall Hndp) as (R' & placed1 & rem & b & Hp & Hc' & Hsub & Hmono & Hcov & Hrem & Hndr & Hb0 & Hb1 & Hpl1 & Hnd1).
+  destruct (pass_spec pending R ps Hc Hall Hndp) as (R' & placed1 & rem & b & Hp & Hc' & Hsub & Hmono & Hcov & Hrem & Hndr & Hb0 & Hb1 & Hpl1 & Hnd1 & Hgrow1).
   rewrite Hp. cbn [bind].
   assert (Hsubo' : forall g, R' g = true -> own g = true).
   { intros g Hg. destruct (Hsub g Hg) as [|Hin]; [auto|]. apply in_map_iff in Hin as [d [<- Hd]]. apply own_in. auto. }
@@ -181,8 +192,8 @@ Proof.
   { eapply Forall_impl; [|exact Hpl1]. intros pd. apply placed_ok_weaken; auto. }
   destruct (negb b || match rem with [] => true | _ :: _ => false end) eqn:Eexit.
   - (* the loop stops: nothing presented is exposed any more *)
-    exists placed1. split; [|split; assumption]. f_equal. f_equal. apply view_fix.
-    + intros g k v Hex. destruct (own g) eqn:Eo; [exfalso|reflexivity].
+    assert (Hnoex : forall g k v, Exposed R' g k v t -> own g = false).
+    { intros g k v Hex. destruct (own g) eqn:Eo; [exfalso|reflexivity].
       apply own_inv in Eo as [d [Hd <-]].
       pose proof (Exposed_R_false _ _ _ _ _ Hex) as HRf.
       destruct (Hcover' d Hd) as [Hdr|HRt]; [|congruence].
@@ -193,11 +204,13 @@ Proof.
         { rewrite Forall_forall in HLok. destruct (HLok d Hd) as [|Hfor]; [assumption|]. exfalso. apply Hfor.
           apply hdigs_alldigs; [assumption|]. eapply IsNode_hdigs. eapply Exposed_IsNode. eassumption. }
         destruct (IsNode_fun H enc _ _ _ _ _ _ Hndh (Exposed_IsNode H enc _ _ _ _ _ Hex) Hnode) as [-> ->]. assumption.
-      * destruct rem; [destruct Hdr|discriminate].
+      * destruct rem; [destruct Hdr|discriminate]. }
+    exists placed1. split; [|split; [assumption|split; [assumption|exists R'; auto]]]. f_equal. f_equal. apply view_fix.
+    + exact Hnoex.
     + intros g _. apply Hsubo'.
   - (* another pass over what is left *)
     apply orb_false_iff in Eexit as [Eb Er]. apply negb_false_iff in Eb.
-    destruct (IH rem R' (ps ++ placed1)%list) as (placed2 & Hp2 & Hpl2 & Hnd2); auto.
+    destruct (IH rem R' (ps ++ placed1)%list) as (placed2 & Hp2 & Hpl2 & Hnd2 & Rf & Hgrow2 & Hnoex2 & Hsub2); auto.
     + specialize (Hb1 Eb). lia.
     + intros d Hd. apply (Hrem d Hd).
     + intros d Hd. apply HpL. apply (Hrem d Hd).
@@ -205,10 +218,13 @@ Proof.
       * apply Forall_app. split; [assumption|].
         eapply Forall_impl; [|exact Hpl2]. intros pd (Hin & HR' & R1 & Ha & Hb & Hex).
         split; [apply (Hrem _ Hin)|]. split; [assumption|]. exists R1. split; [intros g Hg; apply Ha; apply Hmono; assumption|]. split; assumption.
-      * rewrite map_app. apply NoDup_app_intro; [assumption|assumption|].
-        intros g Hg1 Hg2. apply in_map_iff in Hg1 as [pd1 [<- Hpd1]]. apply in_map_iff in Hg2 as [pd2 [Hq Hpd2]].
-        rewrite Forall_forall in Hpl1, Hpl2. destruct (Hpl1 _ Hpd1) as (_ & Ht1 & _). destruct (Hpl2 _ Hpd2) as (Hin2 & _).
-        destruct (Hrem _ Hin2) as [_ Hf2]. unfold pdig in *. congruence.
+      * split.
+        { rewrite map_app. apply NoDup_app_intro; [assumption|assumption|].
+          intros g Hg1 Hg2. apply in_map_iff in Hg1 as [pd1 [<- Hpd1]]. apply in_map_iff in Hg2 as [pd2 [Hq Hpd2]].
+          rewrite Forall_forall in Hpl1, Hpl2. destruct (Hpl1 _ Hpd1) as (_ & Ht1 & _). destruct (Hpl2 _ Hpd2) as (Hin2 & _).
+          destruct (Hrem _ Hin2) as [_ Hf2]. unfold pdig in *. congruence. }
+        exists Rf. split; [|split; assumption]. intros g Hg. rewrite map_app, in_app_iff.
+        destruct (Hgrow2 g Hg) as [Ha|Hb]; [|auto]. destruct (Hgrow1 g Ha); auto.
 Qed.
 
 (* T2, tree part: whatever list of well-classified disclosures is presented, in whatever order,
@@ -216,11 +232,15 @@ Qed.
    disclosure is recorded at most once, and only if it was placed *)
 Theorem restore_all : NoDup (map d_digest L) ->
   exists placed, passes (S (List.length L)) L (view R0 t) [] = Ok (view own t, placed) /\
-                 Forall (placed_ok R0 own L) placed /\ NoDup (map pdig placed).
+                 Forall (placed_ok R0 own L) placed /\ NoDup (map pdig placed) /\
+                 exists Rf, (forall g, Rf g = true -> In g (map pdig placed)) /\
+                            (forall g k v, Exposed Rf g k v t -> own g = false) /\
+                            (forall g, Rf g = true -> own g = true).
 Proof.
-  intros HndL. destruct (passes_spec (S (List.length L)) L R0 []) as (placed & Hp & Hpl & Hnd'); auto.
+  intros HndL. destruct (passes_spec (S (List.length L)) L R0 []) as (placed & Hp & Hpl & Hnd' & Rf & Hgrow & Hnoex & Hsub); auto.
   - apply closedR_none. reflexivity.
   - discriminate.
-  - exists placed. auto.
+  - exists placed. split; [assumption|]. split; [assumption|]. split; [assumption|]. exists Rf. split; [|auto].
+    intros g Hg. destruct (Hgrow g Hg) as [Hf|]; [discriminate|assumption].
 Qed.
 End L.
